@@ -3,15 +3,17 @@ from vcommon import *
 import scen_common
 
 PID = "C08"
-PROP_V = ["Props/Properties_C08.v"]
+PROP_V = ["Props/Properties_C08.v", "Props/Properties_C08b.v"]
 GEN_MODULES = ["Consts", "Sites"]
 FLOW_FILES = ['note.c']
 REPLAY_HINT = "VRT_SEED=<seed> VRT_FAMILY=<f> _work/h/note_mix"
-PARTIAL = ["C08_descendants is proved as C08_descendants_partial (a notified note on which no note_notify_child is running has no children and "
-           "no waiters) + C08_descendants_linked (a note still linked under a notified parent means a notification of that parent is in "
-           "progress); the creation-time-descendants form C08_descendants_full is kept as a Definition: it needs an invariant tying the "
-           "ghost creation path to the current tree across adoptions (checked exhaustively on 9.1 M explored model states, not proved); "
-           "at quiescence the scenario oracle checks it on the implementation",
+PARTIAL = ["C08_descendants is PROVED in its creation-time form (Properties_C08b.C08_descendants_full_holds = the Definition C08_descendants_full of "
+           "Properties_C08: in every reachable quiet world -- no notification in progress -- every fully constructed, not freed note m with a notified "
+           "note a on its CREATION path is observed notified and has no waiters), by the invariant C08_creation_path_linked (for every live in-scope "
+           "note and every strict creation ancestor: the ancestor is dead and un-notified, or the note's current parent still lies below it -- "
+           "preserved across adoption by nsync_note_free, the unlink at the end of note_notify_child, and nsync_note_new under a notified or expired "
+           "parent) and a well-founded climb along the current parent links; the proof uses the repairs F7, F10, F11 (a dead note is never notified).  "
+           "Quiet is 'no note_notify_child frame on any stack'; that a notification in progress terminates is C09's progress statement",
            "the literal reading of the expiry clause ('minimum of the abs_deadline values') is refuted by design: an explicitly notified "
            "ancestor counts as deadline zero (C08_expiry_literal_refuted); the clause is proved under that reading (C08_expiry)"]
 TRUSTED_BASE = ["Model/NoteModel.v control skeleton (note.c incl. the repairs F4, F7, F10, F11, F12): hand-written, validated by lock-step replay "
@@ -22,7 +24,7 @@ def run(tier, seed):
     import mu_common
     res = {"violations": [], "broken": [], "coverage": {}}
     tie = mu_common.tie(res, "note_replay", "NoteModel", [("note_mix", {"VRT_FAMILY": f}, 150, 1500) for f in (0, 1, 2, 3)], tier, seed)
-    specs = [("note_mix", {"VRT_FAMILY": f}, 2000, 40000) for f in (0, 1, 2, 3, 4)] + [("note_f8", {}, 800, 15000), ("note_f9", {}, 800, 15000)]
+    specs = [("note_mix", {"VRT_FAMILY": f}, 2000, 40000) for f in (0, 1, 2, 3, 4)] + [("note_f8", {}, 800, 15000), ("note_f9", {}, 800, 15000), ("note_f9", {"VRT_T3": 2}, 800, 15000)]
     cov = scen_common.run_scenarios(res, specs, tier, seed, {"C08"} | scen_common.LIVENESS | scen_common.CRASHES)
     cov["rule"] = ("note_mix: parent-child-grandchild(+sibling) trees with deadlines none/past/future, notifiers, pollers, waiters, creators, "
                    "freers; per-note observation history must be monotone (w.r.t. observations completed before a call starts), notify returns "
